@@ -67,6 +67,9 @@ def run(tier, seed):
                 elif op[0] == "maxreach":
                     if kind == "digraph":
                         ops.append(["maxreach"])
+                        if rng.random() < 0.6:       # the same object asked for another weight attribute, then the first again
+                            ops.append(["maxreach", "alt"])
+                            ops.append(["maxreach"])
                 elif op[0] == "width":
                     pass          # width is C09's business
             # antichain queries with several weight functions (incl. zero and large weights)
@@ -87,7 +90,8 @@ def run(tier, seed):
             st = [rng.choice(u["nodes"])] if rng.random() < 0.3 else []
             if kind == "dag" and st:
                 ops = [o for o in ops if o[0] not in ("decompose", "bottleneck")]
-            insts.append({"kind": kind, "nodes": u["nodes"], "edges": u["edges"], "ew": u["ew"], "starts": st, "ends": [], "ops": ops})
+            insts.append({"kind": kind, "nodes": u["nodes"], "edges": u["edges"], "ew": u["ew"], "starts": st, "ends": [], "ops": ops,
+                          "ew2": [rng.choice([1, 3, 7, 30]) for _ in u["ew"]]})
     # random DAGs on 5-7 nodes with 0/1 weight functions that also weigh the synthetic source/sink edges: zero-weight
     # (zero-flow) edges around the min cut are where a cut extraction goes wrong while the VALUE stays right
     for _ in range(60 if quick else 600):
